@@ -59,6 +59,40 @@ def setRange (l : List Nat) (lo hi v : Nat) : List Nat :=
 def setAll (l : List Nat) (ps : List Nat) (v : Nat) : List Nat :=
   ps.foldl (fun l p => l.set p v) l
 
+/-- array implementation of `setAll` for the compiled driver (proved equal, `@[csimp]`) -/
+def setAllFast (l : List Nat) (ps : List Nat) (v : Nat) : List Nat :=
+  (ps.foldl (fun (a : Array Nat) p => a.setIfInBounds p v) l.toArray).toList
+
+theorem setAllFast_go (ps : List Nat) (v : Nat) (a : Array Nat) :
+    (ps.foldl (fun (a : Array Nat) p => a.setIfInBounds p v) a).toList
+      = ps.foldl (fun l p => l.set p v) a.toList := by
+  induction ps generalizing a with
+  | nil => rfl
+  | cons p ps ih => simp [List.foldl_cons, ih]
+
+@[csimp] theorem setAll_eq_fast : @setAll = @setAllFast := by
+  funext l ps v
+  simp [setAll, setAllFast, setAllFast_go]
+
+/-- `set_lcp(p.1, depth + p.2)` for a list of (position, increment) pairs -/
+def setPairs (l : List Nat) (ps : List (Nat × Nat)) (depth : Nat) : List Nat :=
+  ps.foldl (fun l p => l.set p.1 (depth + p.2)) l
+
+/-- array implementation of `setPairs` for the compiled driver (proved equal, `@[csimp]`) -/
+def setPairsFast (l : List Nat) (ps : List (Nat × Nat)) (depth : Nat) : List Nat :=
+  (ps.foldl (fun (a : Array Nat) p => a.setIfInBounds p.1 (depth + p.2)) l.toArray).toList
+
+theorem setPairsFast_go (ps : List (Nat × Nat)) (depth : Nat) (a : Array Nat) :
+    (ps.foldl (fun (a : Array Nat) p => a.setIfInBounds p.1 (depth + p.2)) a).toList
+      = ps.foldl (fun l p => l.set p.1 (depth + p.2)) a.toList := by
+  induction ps generalizing a with
+  | nil => rfl
+  | cons p ps ih => simp [List.foldl_cons, ih]
+
+@[csimp] theorem setPairs_eq_fast : @setPairs = @setPairsFast := by
+  funext l ps depth
+  simp [setPairs, setPairsFast, setPairsFast_go]
+
 /-- cut a list into consecutive pieces of the given sizes (sub-ranges `sub(offset, size)`) -/
 def splitBy {β : Type} : List Nat → List β → List (List β)
   | [], _ => []
@@ -129,6 +163,6 @@ def stepLcp16 (sizes : List Nat) (depth : Nat) (l : List Nat) : List Nat :=
   let l1 := setRange l 1 (sizes.headD 0) depth
   match ne with
   | [] => l1
-  | (_, s1) :: _ => (border16 ne s1).foldl (fun l p => l.set p.1 (depth + p.2)) l1
+  | (_, s1) :: _ => setPairs l1 (border16 ne s1) depth
 
 end TlxVerif.C03
